@@ -233,6 +233,7 @@ class Thread:
     def join(self, timeout=None):
         lt = self._lt
         SCHED.park(("join", lt.name), cond=lambda: lt.done)
+        SCHED.event("joined", lt.name)
 
     def is_alive(self):
         return self._lt is not None and not self._lt.done
@@ -248,11 +249,15 @@ class Event:
 
     def set(self):
         self._flag = True
+        if SCHED is not None and SCHED.me() is not None:
+            SCHED.event("event-set", SCHED.me().name)
 
     def clear(self):
         self._flag = False
 
     def is_set(self):
+        if SCHED is not None and SCHED.me() is not None:
+            SCHED.event("event-test", SCHED.me().name, self._flag)
         return self._flag
 
     def wait(self, timeout=None):
@@ -443,6 +448,7 @@ class ThreadPoolExecutor:
 
     def submit(self, fn, *args, **kwargs):
         if self.shut:
+            SCHED.event("submit-refused", SCHED.me().name if SCHED.me() is not None else None)
             raise RuntimeError("cannot schedule new futures after shutdown")
         self.count += 1
         k = self.count
@@ -485,6 +491,7 @@ class ThreadPoolExecutor:
 
     def shutdown(self, wait=True, *, cancel_futures=False):
         self.shut = True
+        SCHED.event("shutdown-flag")
         if cancel_futures:
             # concurrent.futures semantics: work items not yet started are dropped (their futures cancelled)
             for name in list(self.workq):
@@ -498,6 +505,7 @@ class ThreadPoolExecutor:
             self.workq.clear()
         if wait:
             SCHED.park(("pool-shutdown",), cond=lambda: not self.workq and self.running == 0)
+            SCHED.event("shutdown-done")
 
 
 def _task_begin(t):
@@ -510,6 +518,7 @@ def _task_begin(t):
 def _task_end(t):
     if t.kind == "task" and t.started:
         t.meta["executor"].running -= 1
+        t.sched.event("task-done", t.name)
 
 
 # ---------------------------------------------------------------------------------- socket / time / os
